@@ -24,7 +24,9 @@ RULE = ("Directories are drawn by Hypothesis (plain, with link files / .cap / ab
         "child, 0 / 1 / size/2 bytes written) with the next request required to show the current directory whatever the dead "
         "writer left next to the file; killed writer: the cache-writing request runs "
         "in a forked child that dies inside the serialisation after 0 / 1 / size/2 / size-1 bytes, then the directory is listed; "
-        "cut while decoding: the reader request runs in a forked child whose audit hook truncates the file (to 0 / 1 / size/2 "
+        "full disk: in a forked child no file can grow beyond 0 / 1 / size/2 / size-4097 / size-100 / size-1 bytes (RLIMIT_FSIZE): "
+        "the cache-writing request and the next one (which finds the cut-off file and cannot rewrite it either) must both deliver "
+        "the listing; cut while decoding: the reader request runs in a forked child whose audit hook truncates the file (to 0 / 1 / size/2 "
         "bytes) at the decoder's first class look-up, i.e. after the reader has opened the file and before it has consumed it - "
         "the child must survive and deliver the listing. "
         "Non-trivial: prefix strictly between 0 and size; distinct = (directory hash, file, prefix length).")
@@ -212,6 +214,8 @@ def check_case(case, ctx):
             fails += _killed_writer(cfg, root, ref, forms, ctx, d)
         if k == 4:
             fails += _cut_while_decoding(cfg, root, ref, forms, ctx, d)
+        if k == 5:
+            fails += _full_disk(cfg, root, ref, forms, ctx, d)
         ctx.label("deco:" + d["deco"], "cachefiles:%d" % len(caches), "listed:%s" % ("root" if not where else "subdirectory"))
         if k == 0:
             ctx.sample({"dir": d, "cache_files": caches}, cls=d["deco"])
@@ -369,6 +373,73 @@ def _killed_writer(cfg, root, ref, forms, ctx, d):
                 pass
         if fails:
             break
+    _listing(cfg, "gopher")  # leave a complete cache file behind
+    return fails
+
+
+def _full_disk(cfg, root, ref, forms, ctx, d):
+    """A disk that is full: in a forked child no file may grow beyond `limit` bytes (RLIMIT_FSIZE, the error delivered as
+    EFBIG).  The request that writes the cache is cut off there - and so is the rewrite attempted by the next request, which
+    finds the cut-off file.  Both must deliver the directory's listing."""
+    import pickle
+    import resource
+    import signal
+    path = os.path.join(root, ".cache.pygopherd.dir")
+    with open(path, "rb") as f:
+        size = len(f.read())
+    fails = []
+    for i, limit in enumerate(sorted({0, 1, size // 2, max(0, size - 4097), max(0, size - 100), max(0, size - 1)})):
+        try:
+            os.unlink(path)
+        except OSError:
+            pass
+        form = forms[i % len(forms)]
+        rd, wr = os.pipe()
+        pid = os.fork()
+        if pid == 0:
+            try:
+                os.close(rd)
+                signal.signal(signal.SIGXFSZ, signal.SIG_IGN)
+                resource.setrlimit(resource.RLIMIT_FSIZE, (limit, limit))
+                out = []
+                for _ in range(2):
+                    r = _listing(cfg, form)
+                    out.append((r.response, repr(r.escaped) if r.escaped is not None else None, r.logs[-2:]))
+                blob = pickle.dumps(out)
+                while blob:
+                    blob = blob[os.write(wr, blob):]
+            finally:
+                os._exit(0)
+        os.close(wr)
+        chunks = []
+        while True:
+            b_ = os.read(rd, 65536)
+            if not b_:
+                break
+            chunks.append(b_)
+        os.close(rd)
+        os.waitpid(pid, 0)
+        ctx.count("full_disk_points")
+        ctx.evaluations += 1
+        ctx.nontriv((d, "full-disk", limit))
+        try:
+            out = pickle.loads(b"".join(chunks))
+        except Exception:
+            fails.append(Fail("full-disk:no-result", "with files limited to %d bytes the requests delivered nothing" % limit))
+            break
+        for j, (resp, esc, logs) in enumerate(out):
+            if _mask(resp) != ref[(b"/", form)] or esc is not None:
+                fails.append(Fail("full-disk:%s" % ("escaped" if esc else "wrong-listing"),
+                                  "no file can grow beyond %d bytes (the cache would be %d): the %s %s request does not deliver the "
+                                  "directory's listing: %r %r" % (limit, size, "cache-writing" if j == 0 else "next", form, resp[:120], esc),
+                                  {"logs": logs}))
+                break
+        if fails:
+            break
+    try:
+        os.unlink(path)
+    except OSError:
+        pass
     _listing(cfg, "gopher")  # leave a complete cache file behind
     return fails
 
